@@ -373,6 +373,16 @@ func cmdCheck(args []string) int {
 			}
 			viols = append(viols, violation{fingerprint: fp, replay: dir, detail: cex.Detail})
 		}
+		nAsserts := 0
+		for _, n := range ex.asserts {
+			nAsserts += n
+		}
+		if ex.outcomes["ok"]+ex.outcomes["assertfail"] == 0 || nAsserts == 0 || len(ex.reached) == 0 {
+			rep.Vacuity = "VACUOUS: no path reached the end of the harness / no assertion or vReach label was executed"
+			machineryErr = true
+		} else {
+			rep.Vacuity = fmt.Sprintf("%d labels reached, %d assertion executions", len(ex.reached), nAsserts)
+		}
 		reports = append(reports, rep)
 		if *verbose {
 			jb, _ := json.MarshalIndent(rep, "", " ")
